@@ -32,7 +32,7 @@ func profPairingFor(h int) *Profile {
 
 func TestC02(t *testing.T) {
 	run := ev.Start("C02")
-	nHist, nOps := run.Pick(8, 40), run.Pick(400, 1200)
+	nHist, nOps := run.Pick(8, 24), run.Pick(400, 1200)
 	for h := 0; h < nHist; h++ {
 		var pm *PairingMon
 		s := History(t, run, profPairingFor(h), h, nOps, func(id string) []Monitor {
